@@ -233,6 +233,13 @@ def prove(pid: str, timeout=1500, jobs=16):
         rc1, out1 = sh(f"timeout {timeout} make -j{jobs} {tg}", cwd=COQ, timeout=timeout + 60)
         out += out1
         rc = rc or rc1
+    # bring every other compiled file (Run/*.vo used by the correspondence, the extraction inputs) up to date with the
+    # regenerated constants as well: a stale .vo would otherwise surface as "inconsistent assumptions" in the model evaluation
+    if rc == 0:
+        rc2, out2 = sh(f"timeout {timeout} make -j{jobs}", cwd=COQ, timeout=timeout + 60)
+        if rc2 != 0:
+            rc = rc2
+            out += out2
     res["build_s"] = round(time.time() - t0, 1)
     res["build_tail"] = out[-3000:]
     if rc != 0:
